@@ -13,7 +13,7 @@
                       come the gap g and then r, where r starts no gap, no `.`, and (if the expression
                       ends in a word character, w = true) g ++ r does not start with an identifier char.
    F is the fuel; every theorem holds for all F larger than the remaining text (fuel_of text is). *)
-From TSG Require Import Model.Parser Spec.Render Proofs.Parser.
+From TSG Require Import Model.Parser Spec.Render Proofs.Parser Proofs.ParseRender.
 
 (* ---- Location::advance and the byte offset, for ANY consumed text (newlines, multi-byte chars):
    offset = sum of the UTF-8 lengths, row = number of newlines, column = characters since the last
@@ -80,6 +80,29 @@ Theorem keyword_prefix_safe : forall X F n g s r, WfIdent X n -> n <> t_some -> 
   expr_follow X true g r -> p_rest s = n ++ render_gap g ++ r -> (len s < F)%nat ->
   parse_condition X F s = ROk (CBool (EUnscoped n (p_loc s)) (p_loc s)) (st_after s (n ++ render_gap g) r).
 Proof. exact parse_condition_ident. Qed.
+
+(* ---- the round trip for expressions: for every well-formed expression e (all 14 forms, any nesting),
+   every layout L (any gaps — whitespace and `;` comments — at every token boundary, optional trailing
+   commas in list and set literals, any legal spelling of strings and integers; a single space is
+   inserted only where two tokens would otherwise merge), written at any position of any text:
+   parse_expression returns exactly `rloc L p e` — e with every location set to the (row, character
+   column) of the construct's first character (scoped variable: of its NAME), captures unresolved —
+   and stops exactly after the text and the following gap.
+   Hypotheses: UnicodeSane X (whitespace characters are not identifier characters: a fact of the
+   Unicode tables, validated on the table of every correspondence case), expr_follow (what follows
+   does not continue the expression: no `.`, no gap, and no identifier character directly after a
+   word). ---- *)
+Theorem parse_render_expr : forall X F, UnicodeSane X ->
+  forall e L s g r, WfExpr X e -> WfLayout X L -> expr_follow X (ends_word e) g r ->
+  p_rest s = fst (render_expr L (p_loc s) e) ++ render_gap g ++ r -> (len s < F)%nat ->
+  parse_expression X F s =
+    ROk (snd (render_expr L (p_loc s) e)) (st_after s (fst (render_expr L (p_loc s) e) ++ render_gap g) r).
+Proof. intros X F HS e L s g r. apply parse_render_expr_lemma. exact HS. Qed.
+
+(* two layouts of the same expression parse to ASTs that differ in locations only *)
+Theorem layout_irrelevant_expr : forall L1 L2 p1 p2 e,
+  erase_locs (rloc L1 p1 e) = erase_locs (rloc L2 p2 e).
+Proof. exact rloc_erase_indep. Qed.
 
 (* ---- non-vacuity ---- *)
 Definition ex_ext : ext :=
